@@ -95,9 +95,31 @@ pub struct Ctx {
     pub extra: BTreeMap<String, serde_json::Value>,
 }
 
+/// the case being executed and when it started: read by the watchdog thread
+static WATCH: std::sync::Mutex<Option<(String, std::time::Instant)>> = std::sync::Mutex::new(None);
+
+/// a call into the code under test that never returns must not stall the check: after `limit` seconds in one case the
+/// watchdog writes `<outdir>/hang.json` (the case description) and ends the process with status 4
+fn start_watchdog(outdir: String, limit: u64) {
+    std::thread::spawn(move || loop {
+        std::thread::sleep(std::time::Duration::from_millis(500));
+        let hung = match WATCH.lock() {
+            Ok(g) => match &*g { Some((d, t)) if t.elapsed().as_secs() >= limit => Some(d.clone()), _ => None },
+            Err(_) => None,
+        };
+        if let Some(desc) = hung {
+            let v = serde_json::json!({"kind":"impl_violates_property","what":"a call into the code under test did not return (watchdog)","case":desc,"limit_s":limit});
+            let _ = std::fs::write(format!("{}/hang.json", outdir), serde_json::to_string(&v).unwrap());
+            std::process::exit(4);
+        }
+    });
+}
+
 impl Ctx {
     pub fn new(outdir: &str, seed: u64, tier: Tier) -> Ctx {
         std::fs::create_dir_all(outdir).unwrap();
+        let _ = std::fs::remove_file(format!("{}/hang.json", outdir));
+        start_watchdog(outdir.to_string(), if tier == Tier::Quick { 60 } else { 1200 });
         Ctx {
             ops: BufWriter::new(File::create(format!("{}/ops.txt", outdir)).unwrap()),
             imp: BufWriter::new(File::create(format!("{}/impl.txt", outdir)).unwrap()),
@@ -162,6 +184,7 @@ impl Ctx {
         writeln!(self.imp, "case {}", self.evals).unwrap();
         self.lines += 1;
         self.cur_sample = format!("[{}] ", desc);
+        if let Ok(mut g) = WATCH.lock() { *g = Some((desc.to_string(), std::time::Instant::now())); }
     }
     pub fn mark_nontrivial(&mut self) {
         self.cur_nontrivial = true;
@@ -188,6 +211,7 @@ impl Ctx {
         }
     }
     pub fn end_case(&mut self) {
+        if let Ok(mut g) = WATCH.lock() { *g = None; }
         if !self.cur_open {
             return;
         }
